@@ -24,7 +24,8 @@ RULE = ("molecules: the local MOL2 files (tests/data, examples/ligands) and rand
         "phenyl, cyclohexyl, phosphate), each run as-is and after bijective renaming, atom/bond permutation and rigid "
         "motion. Non-trivial: molecule with a charged group or a ring or >1 symmetry class of size >1; distinct = "
         "(source, multiset of Sybyl types, bond count). complexes: synthetic peptide + ligand HETATM residue + "
-        "optional second hetero group (colliding / non-colliding atom names) + ions + waters under --ligand")
+        "optional second hetero group (colliding / non-colliding atom names) + ions + waters under --ligand"
+        ' Round-3/4 additions: ligand atoms in two alternate locations; salts (unbonded halide atoms) in random molecules.')
 ASSUMPTIONS = ["formal charges are the ones Mol2Atom.formal_charge reports (the property is relative to them)",
                "symmetry classes are approximated from above by colour refinement (necessary condition, never stricter)",
                "radius tables: ZAP9 by Sybyl type then element, then Bondi (values copied from the cited papers into "
